@@ -534,7 +534,7 @@ def run_crossover_case(spec):
         try:
             cands = infer_crossover(fn, b1, b2, hb, a1, a2, ha, parents_b)
         except Exception as ex:   # fails closed (an empty candidate list is a disagreement)
-            cands = [] if fn != 'subgraph_crossover' else None
+            cands = []
             info['inference_failed'] = '%s: %s' % (type(ex).__name__, ex)
     info['cands'] = None if cands is None else len(cands)
     term = '(%s, (%s, (%s, %s)), %s, %s)' % (c_nats(range(known)), c_heap(hb), c_nats(b1), c_nats(b2),
@@ -599,7 +599,25 @@ def infer_crossover(fn, b1, b2, hb, a1, a2, ha, parents_b):
         if not inc:
             return ['(%s None)' % ctor]
         return ['(%s (Some %d))' % (ctor, r) for r in inc]
-    return None   # subgraph_crossover: oracle only
+    if fn == 'subgraph_crossover':
+        # the links cut in each parent = its links that are gone; any of them may have been the first
+        # (target, source); the order of the others does not matter; at most one connection per child
+        def removed(g):
+            return [(p, c) for c in g for p in hb[c][2] if p not in ha[c][2]]
+        pr = lambda es: ('[' + '; '.join('(%d, %d)' % e for e in es) + ']') if es else '(@nil (nat * nat))'
+
+        def options(g):
+            rem = removed(g)
+            if not rem:
+                return [('(@None (nat * nat))', '(@nil (nat * nat))')]
+            return [('(Some (%d, %d))' % e, pr([x for x in rem if x != e])) for e in rem]
+        o1, o2 = options(b1), options(b2)
+        if len(o1) * len(o2) * 4 > 64:
+            return None
+        coins = ['[(0, 0, true)]', '[(0, 0, false)]']
+        return ['(XSubgraph (mkSub %s %s %s %s %s %s))' % (f1, c1, f2, c2, k1, k2)
+                for f1, c1 in o1 for f2, c2 in o2 for k1 in coins for k2 in coins]
+    return None
 
 
 # ----------------------------------------------------------------------------------------
@@ -676,7 +694,7 @@ def evaluate(ctx, group, kind, specs):
                         case_ty=('mkind * list nat * state * list mcall * obs' if kind == 'mut'
                                  else 'list nat * cstate * list xcall * cobs'))
     for (spec, info), (ag, ho, dom) in zip(metas, res):
-        modelled = info.get('cands') is not None and not (kind == 'cx' and spec['fn'] == 'subgraph_crossover')
+        modelled = info.get('cands') is not None
         ctx.count(group, key=repr(sorted(spec.items())), nontrivial=bool(dom and info['changed']), fn=spec['fn'],
                   nodes=info['n'], changed=info['changed'], raised=bool(info['raised']),
                   modelled=modelled, **({'relation': spec['rel']} if kind == 'cx' else {'advice': spec['advice']}))
